@@ -11,12 +11,12 @@ package main
 // parked, so between two controller decisions the code is deterministic.
 
 import (
-	"sync/atomic"
 	"fmt"
 	"os"
 	"runtime"
 	"strings"
 	"sync"
+	"sync/atomic"
 	"time"
 
 	"github.com/hattya/go.sh/interp"
